@@ -131,6 +131,51 @@ def report_failure(ctx: C.Ctx, case, first):
     ctx.fail(C.Failure("layout analysis breaks C08: " + name.split("@")[0], small, hit[1], hit[2], tags))
 
 
+def uniform_requests(case, page):
+    """One request per pair of consecutive glyphs of every text line: the pair has to satisfy the DOCUMENTED
+    join predicate of the line's class ("every line holds glyphs of one orientation")."""
+    from pdfminer.layout import LTChar, LTTextBox, LTTextLine, LTTextLineVertical
+    la = case["la"]
+    reqs, meta = [], []
+    for path, mode, bbox, items in L.containers(case):
+        if mode == "fig0":
+            continue
+        cont = L.find_container(page, path)
+        if cont is None:
+            continue
+        lines = []
+        for o in cont:
+            if isinstance(o, LTTextBox):
+                lines.extend(l for l in o if isinstance(l, LTTextLine))
+            elif isinstance(o, LTTextLine):
+                lines.append(o)
+        for l in lines:
+            chars = [e for e in l if isinstance(e, LTChar)]
+            name = "valign" if isinstance(l, LTTextLineVertical) else "halign"
+            for c0, c1 in zip(chars, chars[1:]):
+                nums = [F(la["line_overlap"]), F(la["char_margin"])] + [F(v) for v in c0.bbox] + [F(v) for v in c1.bbox]
+                reqs.append("pred %s %s" % (name, " ".join(L.fs(x) for x in nums)))
+                meta.append((name, getattr(c0, "_vid", "?"), getattr(c1, "_vid", "?")))
+    return reqs, meta
+
+
+def uniform_failure(ctx: C.Ctx, case):
+    """(expected, got) of the first non-uniform line of `case`, or None (used while shrinking)."""
+    if ctx.driver is None:
+        return None
+    page, err = L.run_impl(case)
+    if err is not None:
+        return None
+    reqs, meta = uniform_requests(case, page)
+    if not reqs:
+        return None
+    for (name, i0, i1), out in zip(meta, ctx.driver.ask(reqs)):
+        if out.split()[1] != "1":
+            return ("consecutive glyphs of a %s line satisfy the documented %s join predicate"
+                    % ("vertical" if name == "valign" else "horizontal", name), "glyphs c%s, c%s do not" % (i0, i1))
+    return None
+
+
 class Batch:
     """Collects model requests of many cases, asks the driver once, compares."""
 
@@ -138,8 +183,14 @@ class Batch:
         self.ctx = ctx
         self.lines: List[str] = []
         self.meta: List[Any] = []
+        self.ureqs: List[str] = []
+        self.umeta: List[Any] = []
 
     def add(self, case, page):
+        r, m = uniform_requests(case, page)
+        if r:
+            self.ureqs += r
+            self.umeta += [(case, x) for x in m]
         for path, mode, bbox, items in L.containers(case):
             cont = L.find_container(page, path)
             if cont is None:
@@ -148,8 +199,35 @@ class Batch:
             self.lines.append(L.model_line(bbox, case["la"], items, mode))
             self.meta.append((case, path, full, weak))
 
+    def flush_uniform(self):
+        ctx = self.ctx
+        reqs, meta = self.ureqs, self.umeta
+        self.ureqs, self.umeta = [], []
+        if ctx.driver is None or not reqs:
+            return
+        bad_cases = []
+        for (case, (name, i0, i1)), out in zip(meta, ctx.driver.ask(reqs)):
+            ctx.branch("uniform-pair:" + name)
+            if out.split()[1] != "1" and not any(c is case for c in bad_cases):
+                bad_cases.append(case)
+        for case in bad_cases[:3]:
+            ctx.branch("fail:line-uniform")
+            seen = ctx.extra.setdefault("_failure_kinds", {})
+            seen["line-uniform"] = seen.get("line-uniform", 0) + 1
+            small = case
+            if seen["line-uniform"] == 1:
+                items = C.ddmin(list(case["items"]), lambda its: uniform_failure(ctx, dict(case, items=its)) is not None,
+                                max_tests=80)
+                if uniform_failure(ctx, dict(case, items=items)) is not None:
+                    small = dict(case, items=items)
+            hit = uniform_failure(ctx, small) or ("uniform line", "not uniform")
+            ctx.fail(C.Failure("layout analysis breaks C08: line-uniform", small, hit[0], hit[1],
+                               {"check": "line-uniform", "boxes_flow_none": small["la"].get("boxes_flow") is None,
+                                "far": far(small), "glyphs": L.n_glyphs(small)}))
+
     def flush(self):
         ctx = self.ctx
+        self.flush_uniform()
         if ctx.driver is None or not self.lines:
             self.lines, self.meta = [], []
             return
@@ -358,6 +436,7 @@ def replay(ctx: C.Ctx, doc) -> None:
         inp = inp["case"]
     eval_case(ctx, inp, batch, "replay")
     batch.flush()
+    finish(ctx)
 
 
 def finish(ctx: C.Ctx) -> None:
